@@ -85,12 +85,16 @@ pub struct Interp<'tcx> {
     pub pending_origin: Option<(u32, Ptr, u32)>,
     pub pending_bdef: Option<(u32, BoolDef)>,
     pub pending_discr: Option<(u32, Ptr)>,
+    pub viol_events: u64,
+    pub fast_from_fn: bool,
     pub probe_pats: Vec<String>,
+    pub moduli: Rc<Vec<i128>>,
     pub ret_key: u8,
     pub next_atom: usize,
     pub cur_bb: usize,
     pub cur_call_bb: usize,
     pub atom_names: HashMap<AtomId, String>,
+    pub last_atom_names: HashMap<AtomId, String>,
     pub input_names: Vec<String>,
 }
 
@@ -143,12 +147,16 @@ impl<'tcx> Interp<'tcx> {
             pending_origin: None,
             pending_bdef: None,
             pending_discr: None,
+            viol_events: 0,
+            fast_from_fn: false,
             probe_pats: Vec::new(),
+            moduli: Rc::new(Vec::new()),
             ret_key: 3,
             next_atom: 0,
             cur_bb: 0,
             cur_call_bb: 0,
             atom_names: HashMap::new(),
+            last_atom_names: HashMap::new(),
             input_names: Vec::new(),
         }
     }
@@ -483,7 +491,7 @@ impl<'tcx> Interp<'tcx> {
     // ---- atoms ----------------------------------------------------------------------------
 
     pub fn atoms<'a>(&self, st: &'a State) -> Atoms {
-        Atoms { itv: st.atoms.clone(), defs: self.atom_defs.clone() }
+        Atoms { itv: st.atoms.clone(), defs: self.atom_defs.clone(), moduli: self.moduli.clone() }
     }
 
     pub fn fresh_atom(&mut self, st: &mut State, lo: i128, hi: i128, def: Option<Rc<Lin>>) -> AtomId {
